@@ -760,7 +760,34 @@ class _Canon2(_Canon):
         if not isinstance(n, ast.Compare):
             return n
         if len(n.ops) == 1 and type(n.ops[0]) in _CMP_CONST:
-            # a tag chosen by a ternary and compared with a constant is the ternary's own test: ("a" if c else "b") == "a"  is  c
+            # a tag chosen by a CHAIN of ternaries (the first row of an ordered table whose test holds) compared with a constant is the
+            # same chain over the constant outcomes:  ("a" if c else "b" if d else None) is None   is   not c and not d
+            for tern, other, swap in ((n.left, n.comparators[0], False), (n.comparators[0], n.left, True)):
+                k = const_value(other)
+                if not (isinstance(tern, ast.IfExp) and (isinstance(tern.body, ast.IfExp) or isinstance(tern.orelse, ast.IfExp))) or k is NOCONST:
+                    continue
+                fn = _CMP_CONST[type(n.ops[0])]
+
+                def leaves(e: ast.AST) -> list:
+                    return leaves(e.body) + leaves(e.orelse) if isinstance(e, ast.IfExp) else [e]
+
+                def dist(e: ast.AST) -> ast.AST:
+                    if not isinstance(e, ast.IfExp):
+                        return ast.Constant(value=bool(fn(k, const_value(e)) if swap else fn(const_value(e), k)))
+                    a, b = dist(e.body), dist(e.orelse)
+                    no = ast.UnaryOp(op=ast.Not(), operand=e.test)
+                    if isinstance(a, ast.Constant) and isinstance(b, ast.Constant):
+                        return a if a.value == b.value else e.test if a.value else no
+                    if isinstance(a, ast.Constant):
+                        return ast.BoolOp(op=ast.Or(), values=[e.test, b]) if a.value else ast.BoolOp(op=ast.And(), values=[no, b])
+                    if isinstance(b, ast.Constant):
+                        return ast.BoolOp(op=ast.Or(), values=[no, a]) if b.value else ast.BoolOp(op=ast.And(), values=[e.test, a])
+                    return ast.IfExp(test=e.test, body=a, orelse=b)
+                if all(const_value(l) is not NOCONST for l in leaves(tern)):
+                    try:
+                        return dist(tern)
+                    except Exception:  # noqa: BLE001
+                        continue
             for tern, other, swap in ((n.left, n.comparators[0], False), (n.comparators[0], n.left, True)):
                 if isinstance(tern, ast.IfExp) and const_value(tern.body) is not NOCONST and const_value(tern.orelse) is not NOCONST:
                     k = const_value(other)
@@ -1311,6 +1338,9 @@ class _Sym:
         (always matches) or None (not modelled: may or may not match); bindings name -> canonical value (None: unknown value)"""
         canon = _Canon2(self.hop_address, self)
         if isinstance(pat, ast.MatchSingleton):
+            if isinstance(pat.value, bool) and _boolean_valued(subj):
+                # an expression whose value is exactly True or False `is True` iff it is truthy, `is False` iff it is not
+                return (clone(subj) if pat.value else ast.UnaryOp(op=ast.Not(), operand=clone(subj))), {}
             return ast.Compare(left=subj, ops=[ast.Is()], comparators=[ast.Constant(value=pat.value)]), {}
         if isinstance(pat, ast.MatchValue):
             return ast.Compare(left=subj, ops=[ast.Eq()], comparators=[self.C(fr, pat.value, st)]), {}
@@ -1398,35 +1428,116 @@ class _Sym:
                         self._dfs(fr, v, st2, used | {(u.id, i, ())}, out)
                 continue
             subj = st2.env.pop("%subject", None) or self.C(fr, m.subject, st)
-            rest: _St | None = st2
+            canon = _Canon2(self.hop_address, self)
+            rest: list[_St] = [st2]
             for (i, v), case in zip(succ, m.cases):
-                if rest is None:
+                if not rest:
                     break
-                cond, binds = self._pattern(fr, subj, case.pattern, rest)
-                taken = rest.copy()
-                ok = True if cond is True or cond is None else self.assume(_Canon2(self.hop_address, self).visit(clone(cond)), True, taken)
-                for name, val in binds.items():
-                    taken.env[name] = clone(val) if val is not None and self._pure(val) else self._opaque(fr, name, u)
-                if ok and case.guard is not None:
-                    ok = self.assume(self.C(fr, case.guard, taken), True, taken)
                 key = (u.id, i, ())
-                if ok and key not in used:
-                    self._dfs(fr, v, taken, used | {key}, out)
-                if case.guard is None:
-                    if cond is True:
-                        rest = None
-                    elif cond is not None:
-                        rest = rest.copy()
-                        if not self.assume(_Canon2(self.hop_address, self).visit(clone(cond)), False, rest):
-                            rest = None
-            if rest is not None and len(succ) > len(m.cases):
+                nxt: list[_St] = []
+                for r in rest:
+                    cond, binds = self._pattern(fr, subj, case.pattern, r)
+                    # a compound pattern (`case (False, True):`) is matched item by item: one state per way that can go
+                    for taken in ([r.copy()] if cond is True or cond is None else self._fork(canon.visit(clone(cond)), True, r)):
+                        for name, val in binds.items():
+                            taken.env[name] = clone(val) if val is not None and self._pure(val) else self._opaque(fr, name, u)
+                        ok = True
+                        if case.guard is not None:
+                            ok = self.assume(self.C(fr, case.guard, taken), True, taken)
+                        if ok and key not in used:
+                            self._dfs(fr, v, taken, used | {key}, out)
+                    if cond is None:
+                        nxt.append(r)
+                    elif case.guard is not None:
+                        # not taken: the pattern did not match, or it matched and the guard (read with the pattern's captures) was false
+                        tmp = r.copy()
+                        tmp.env.update({k: clone(b) for k, b in binds.items() if b is not None})
+                        g = self.C(fr, case.guard, tmp) if all(b is not None and self._pure(b) for b in binds.values()) else None
+                        if g is None or not self._pure(g):
+                            nxt.append(r)
+                        else:
+                            full = g if cond is True else ast.BoolOp(op=ast.And(), values=[canon.visit(clone(cond)), g])
+                            nxt.extend(self._fork(full, False, r))
+                    elif cond is not True:
+                        nxt.extend(self._fork(canon.visit(clone(cond)), False, r))
+                rest = nxt
+            if rest and len(succ) > len(m.cases):
                 i, v = succ[len(m.cases)]
                 if (u.id, i, ()) not in used:
-                    self._dfs(fr, v, rest, used | {(u.id, i, ())}, out)
+                    for r in rest:
+                        self._dfs(fr, v, r, used | {(u.id, i, ())}, out)
+
+    def _fork(self, x: ast.AST, lab: bool, st: _St) -> list[_St]:
+        """the states (copies of st) in which canonical condition x evaluated to lab, one per way its short-circuit evaluation can go:
+        a false conjunction has a first false operand after true ones, a true disjunction a first true operand after false ones - the
+        case split the CFG makes for the tests it splits into atoms.  Contradictory ways are dropped."""
+        x = _as_cond(x, self)
+        if isinstance(x, ast.UnaryOp) and isinstance(x.op, ast.Not):
+            return self._fork(x.operand, not lab, st)
+        if isinstance(x, ast.BoolOp) and len(x.values) <= 6:
+            if isinstance(x.op, ast.And) == lab:          # every operand evaluated, all with outcome lab
+                states = [st]
+                for v in x.values:
+                    states = [s2 for s in states for s2 in self._fork(v, lab, s)]
+                return [s.copy() for s in states] if states == [st] else states
+            res: list[_St] = []
+            before = [st]
+            for v in x.values:
+                res.extend(s2 for s in before for s2 in self._fork(v, lab, s))
+                before = [s2 for s in before for s2 in self._fork(v, not lab, s)]
+            return res
+        s = st.copy()
+        return [s] if self.assume(x, lab, s) else []
 
     # ---------------------------------------------------------------- expressions
     def C(self, fr: _Frame, e: ast.AST, st: _St, depth: int = 0) -> ast.AST:
         """canonical form of e in the terms of the root function (locals replaced by what they hold on this path)"""
+        def scan(n: ast.Call) -> ast.AST | None:
+            """next((E(x) for x in ROWS if P(x)), D) / any(..) / all(..) over a literal sequence of rows (possibly held in a local, rows of
+            lazily applied lambdas included): the rows are tried in order, so next() is `E(r1) if P(r1) else E(r2) if P(r2) else .. D`,
+            any() is `P(r1) and E(r1) or ..`, all() is `(not P(r1) or E(r1)) and ..` (same evaluation order, same short-circuiting)"""
+            name = n.func.id
+            comp = strip_cast(n.args[0])
+            if not isinstance(comp, (ast.GeneratorExp, ast.ListComp)) or len(comp.generators) != 1 or comp.generators[0].is_async:
+                return None
+            if (name == "next" and (len(n.args) != 2 or not isinstance(comp, ast.GeneratorExp))) or (name != "next" and len(n.args) != 1):
+                return None
+            g = comp.generators[0]
+            if not g.ifs and name != "next":
+                return None                 # (an unfiltered comprehension is the tuple of its items: handled below)
+            items = _literal_items(sub(g.iter))
+            binds = [_target_bindings(g.target, it) for it in items] if items is not None else [None]
+            if any(b is None for b in binds):
+                return None
+            rows = []
+            for b in binds:
+                saved = {k: st.env.get(k) for k in b}
+                st.env.update(b)
+                try:
+                    conds, val = [sub(c) for c in g.ifs], sub(comp.elt)
+                finally:
+                    for k, v in saved.items():
+                        if v is None:
+                            st.env.pop(k, None)
+                        else:
+                            st.env[k] = v
+                if not all(self._pure(x) for x in (*conds, val)):
+                    return None
+                rows.append((conds, val))
+            if name == "next":
+                acc = sub(n.args[1])
+                for conds, val in reversed(rows):
+                    acc = val if not conds else ast.IfExp(test=conds[0] if len(conds) == 1 else ast.BoolOp(op=ast.And(), values=conds), body=val, orelse=acc)
+                return acc
+            if not rows:
+                return ast.Constant(value=name == "all")
+            if name == "any":
+                terms = [ast.BoolOp(op=ast.And(), values=[*conds, val]) for conds, val in rows]
+            else:
+                terms = [ast.BoolOp(op=ast.Or(), values=[*[ast.UnaryOp(op=ast.Not(), operand=c) for c in conds], val]) for conds, val in rows]
+            x = terms[0] if len(terms) == 1 else ast.BoolOp(op=ast.Or() if name == "any" else ast.And(), values=terms)
+            return ast.Call(func=ast.Name(id="bool", ctx=ast.Load()), args=[x], keywords=[])
+
         def sub(n: ast.AST) -> ast.AST:
             n = strip_cast(n)
             if isinstance(n, ast.Name):
@@ -1447,6 +1558,11 @@ class _Sym:
                     # a local lambda applied to arguments is its body with the parameters replaced (its free names were resolved when
                     # it was bound)
                     return _subst_names(lam.body, {q.arg: sub(x) for q, x in zip(ps.posonlyargs + ps.args, n.args)})
+            if isinstance(n, ast.Call) and isinstance(n.func, ast.Name) and n.func.id in ("next", "any", "all") and n.func.id not in st.env \
+                    and not n.keywords and 1 <= len(n.args) <= 2:
+                r = scan(n)
+                if r is not None:
+                    return r
             if isinstance(n, (ast.GeneratorExp, ast.ListComp)) and len(n.generators) == 1 and not n.generators[0].ifs \
                     and not n.generators[0].is_async:
                 # a comprehension over a literal sequence (possibly held in a local / a module-level table / built by zip, chain,
@@ -2351,6 +2467,35 @@ class _Sym:
             tag += f"!{turn}"               # a new unknown value in every turn of an unrolled loop
         return ast.Name(id=tag if fr.depth == 0 else f"{tag}@{fr.fi.name}", ctx=ast.Load())
 
+    def _lazy_rows(self, val: ast.AST) -> bool:
+        """val is a tuple / list display (possibly nested: a table of rows) whose leaves are pure expressions or
+        lambdas with pure bodies (lazily evaluated predicates / permissions).  Building the display evaluates only the pure leaves; a
+        lambda in it denotes its body, evaluated where it is applied (C() closed it over the locals when it was written, _finish
+        refuses lambdas whose free locals are rebound)"""
+        if not isinstance(val, (ast.Tuple, ast.List)) or any(isinstance(e, ast.Starred) for e in val.elts):
+            return False
+        for e in val.elts:
+            if isinstance(e, ast.Lambda):
+                a = e.args
+                if a.vararg or a.kwarg or a.kwonlyargs or a.defaults or not self._pure(e.body):
+                    return False
+            elif not (self._pure(e) or self._lazy_rows(e)):
+                return False
+        return True
+
+    @staticmethod
+    def _late_bound(fi: FuncInfo, value: ast.AST) -> bool:
+        """the expression writes a lambda that reads a local of fi which is bound more than once: the lambda sees the binding current
+        when it is APPLIED, which the substitution made when it is written does not model"""
+        for lam in [n for n in ast.walk(value) if isinstance(n, ast.Lambda)]:
+            a = lam.args
+            own = {q.arg for q in [*a.posonlyargs, *a.args, *a.kwonlyargs, *([a.vararg] if a.vararg else []), *([a.kwarg] if a.kwarg else [])]}
+            for n in ast.walk(lam.body):
+                if isinstance(n, ast.Name) and n.id not in own:
+                    if len(local_defs(fi, n.id)) + (1 if n.id in fi.params() else 0) > 1:
+                        return True
+        return False
+
     def _bind_target(self, fr: _Frame, t: ast.AST, val: ast.AST | None, st: _St, u) -> None:
         """val: canonical value or None (unknown)"""
         if isinstance(t, ast.Name):
@@ -2358,7 +2503,7 @@ class _Sym:
                 free = {k: v for k, v in st.env.items() if k not in {a.arg for a in val.args.posonlyargs + val.args.args}}
                 st.env[t.id] = ast.Lambda(args=val.args, body=_subst_names(val.body, free))
                 return
-            st.env[t.id] = val if val is not None and self._pure(val) else self._opaque(fr, t.id, u, st)
+            st.env[t.id] = val if val is not None and (self._pure(val) or self._lazy_rows(val)) else self._opaque(fr, t.id, u, st)
         elif isinstance(t, (ast.Tuple, ast.List)):
             star = next((i for i, e in enumerate(t.elts) if isinstance(e, ast.Starred)), None)
             for i, e in enumerate(t.elts):
@@ -2450,6 +2595,8 @@ class _Sym:
         self._effects(fr, u, st2, True)
         if isinstance(a, (ast.Assign, ast.AnnAssign)) and a.value is not None:
             val = value if given else self.C(fr, a.value, st)
+            if self._late_bound(fr.fi, a.value):
+                val = None
             for t in (a.targets if isinstance(a, ast.Assign) else [a.target]):
                 self._bind_target(fr, t, val, st2, u)
         elif isinstance(a, ast.AugAssign):
@@ -3218,6 +3365,159 @@ def _prefix_part(n: ast.AST, data: str, prefix: str) -> _PrefixPart | None:
     return None
 
 
+def _classifier_views(repo, names=("could_be_bt", "could_be_ipv8")) -> tuple[set[int], bool] | None:
+    """(byte positions - negative: from the end, whether the length) of the packet that the named DataChecker classifiers (and the
+    classifiers they call) inspect; None when a classifier uses its argument in a way this scan does not understand"""
+    import struct
+    pos: set[int] = set()
+    needs_len = False
+    todo, seen = list(names), set()
+    while todo:
+        name = todo.pop()
+        if name in seen:
+            continue
+        seen.add(name)
+        fi = _classifier_fn(repo, name)
+        if fi is None:
+            return None
+        ps = [q for q in fi.params() if q not in ("self", "cls")]
+        if len(ps) != 1 or local_defs(fi, ps[0]):
+            return None
+        d = ps[0]
+        for n in walk_no_nested(fi.node):
+            if not (isinstance(n, ast.Name) and n.id == d and isinstance(n.ctx, ast.Load)):
+                continue
+            par = parent(n)
+            if isinstance(par, ast.Subscript) and par.value is n:
+                sl = par.slice
+                if isinstance(sl, ast.Slice):
+                    lo = 0 if sl.lower is None else const_value(sl.lower)
+                    hi = const_value(sl.upper) if sl.upper is not None else (0 if isinstance(lo, int) and lo < 0 else NOCONST)
+                    if sl.step is not None or any(not isinstance(v, int) or isinstance(v, bool) for v in (lo, hi)):
+                        return None
+                    if lo >= 0 and hi > lo:
+                        pos |= set(range(lo, hi))
+                    elif lo < 0 and lo < hi <= 0:
+                        pos |= set(range(lo, hi))
+                    else:
+                        return None
+                else:
+                    i = const_value(sl)
+                    if not isinstance(i, int) or isinstance(i, bool):
+                        return None
+                    pos.add(i)
+                continue
+            if isinstance(par, ast.Call) and n in par.args and not par.keywords:
+                c = chain(par.func) or ""
+                if c == "len" and len(par.args) == 1:
+                    needs_len = True
+                    continue
+                if c.rsplit(".", 1)[-1] in _CLASSIFIER_NAMES and len(par.args) == 1 and c in (c.rsplit(".", 1)[-1], "DataChecker." + c.rsplit(".", 1)[-1]):
+                    todo.append(c.rsplit(".", 1)[-1])
+                    continue
+                if c in ("unpack_from", "struct.unpack_from") and 2 <= len(par.args) <= 3 and par.args[1] is n \
+                        and isinstance(const_value(par.args[0]), str):
+                    off = const_value(par.args[2]) if len(par.args) == 3 else 0
+                    try:
+                        size = struct.calcsize(const_value(par.args[0]))
+                    except struct.error:
+                        return None
+                    if not isinstance(off, int) or isinstance(off, bool) or off < 0:
+                        return None
+                    pos |= set(range(off, off + size))
+                    continue
+            return None
+    return pos, needs_len
+
+
+def _data_views(x: ast.AST, data: str) -> tuple[set[int], bool, bool] | None:
+    """x (one side of an equality, possibly a tuple of views) as views of the packet: (byte positions, the length, the whole packet);
+    None when x contains no view of the packet"""
+    pos: set[int] = set()
+    length = whole = False
+    found = False
+    for e in (x.elts if isinstance(x, (ast.Tuple, ast.List)) else [x]):
+        e = strip_cast(e)
+        while isinstance(e, ast.Call) and chain(e.func) in ("bytes", "memoryview") and len(e.args) == 1 and not e.keywords:
+            e = strip_cast(e.args[0])
+        if isinstance(e, ast.Name) and e.id == data:
+            whole = found = True
+        elif isinstance(e, ast.Call) and chain(e.func) == "len" and len(e.args) == 1 and isinstance(e.args[0], ast.Name) and e.args[0].id == data:
+            length = found = True
+        elif isinstance(e, ast.Subscript) and isinstance(e.value, ast.Name) and e.value.id == data:
+            found = True
+            if isinstance(e.slice, ast.Slice):
+                lo = 0 if e.slice.lower is None else const_value(e.slice.lower)
+                hi = const_value(e.slice.upper) if e.slice.upper is not None else (0 if isinstance(lo, int) and lo < 0 else NOCONST)
+                if e.slice.step is None and all(isinstance(v, int) and not isinstance(v, bool) for v in (lo, hi)) and ((0 <= lo < hi) or (lo < hi <= 0)):
+                    pos |= set(range(lo, hi))
+            elif isinstance(const_value(e.slice), int) and not isinstance(const_value(e.slice), bool):
+                pos.add(const_value(e.slice))
+    return (pos, length, whole) if found else None
+
+
+def _stale_verdict(ctx: Ctx, fi: FuncInfo, data: str) -> str | None:
+    """is_allowed must judge the shape of THE PACKET IT WAS GIVEN.  A classifier verdict kept in an attribute of the socket is a verdict
+    about the packet that was current when it was stored; a path of is_allowed that decides on such an attribute without having stored
+    it in this call reuses the verdict of an earlier packet.  That is only the same decision when the test that selected the path
+    established that the two packets agree on everything the classifiers inspect - returns the reason when it did not."""
+    if fi.cls is None:
+        return None
+    family = set(fi.cls.mro()) | set(fi.cls.all_subclasses())
+    kept: dict[str, tuple[str, str]] = {}
+    for a in [n for n in ast.walk(fi.node) if isinstance(n, ast.Attribute) and isinstance(n.ctx, ast.Load) and isinstance(n.value, ast.Name) and n.value.id == "self"]:
+        if a.attr in kept or fi.cls.lookup(a.attr) is not None or fi.cls.lookup_attr(a.attr) is not None:
+            continue
+        for m, f, w in ctx.repo.attribute_uses(a.attr):
+            if not (isinstance(w.ctx, ast.Store) and f is not None and f.cls in family and isinstance(w.value, ast.Name) and w.value.id == "self"):
+                continue
+            stmt = w
+            while stmt is not None and not isinstance(stmt, ast.stmt):
+                stmt = parent(stmt)
+            if isinstance(stmt, (ast.Assign, ast.AnnAssign)) and stmt.value is not None:
+                v = _expand(f, stmt.value)
+                if any(isinstance(c, ast.Call) and (chain(c.func) or "").rsplit(".", 1)[-1] in _CLASSIFIER_NAMES for c in ast.walk(v)):
+                    kept[a.attr] = (f.qualname, norm(stmt)[:100])
+    if not kept:
+        return None
+    views = _classifier_views(ctx.repo)
+    if views is None:
+        return None
+    need_pos, need_len = views
+    sym = _Sym(ctx, fi, lambda c: None, lambda *a: {})
+    for t, ret, st in sym.decide({}):
+        conds = [*st.trail, *([(ret, True)] if t is None else [])]
+        for attr, (writer, text) in kept.items():
+            me = f"self.{attr}"
+            if me in st.stored or not any(me in norm(c) for c, _ in conds):
+                continue
+            # the verdict of an earlier packet decides: what does this path know about the two packets?
+            pos: set[int] = set()
+            length = whole = False
+            tests = []
+            for c, lab in conds:
+                if isinstance(c, ast.Compare) and len(c.ops) == 1 and ((isinstance(c.ops[0], ast.Eq) and lab) or (isinstance(c.ops[0], ast.NotEq) and not lab)):
+                    for side in (c.left, c.comparators[0]):
+                        v = _data_views(side, data)
+                        if v is not None:
+                            pos |= v[0]
+                            length, whole = length or v[1], whole or v[2]
+                            tests.append(f"`{norm(c)[:100]}` is {'true' if lab else 'false'}")
+            if whole:
+                continue
+            # a prefix slice data[:k] compared equal fixes bytes 0..k-1 only for packets at least that long; the length view fixes the rest
+            missing = sorted(need_pos - pos)
+            if missing or (need_len and not length):
+                what = (f"byte(s) {missing} of the packet" if missing else "") + (" and " if missing and need_len and not length else "") + \
+                    ("its length" if need_len and not length else "")
+                return (f"is_allowed decides on self.{attr}, a classifier verdict that {writer} stored for an EARLIER packet (`{text}`), on a path "
+                        f"that does not classify the packet it was given" + (f" (taken when {tests[0]})" if tests else "") +
+                        f": DataChecker.could_be_bt / could_be_ipv8 also inspect {what}, which that path never compares with the earlier packet, so "
+                        "a packet that agrees with the previous one on the compared views inherits its verdict and is emitted / tunnelled back "
+                        "although its own shape is forbidden by the exit flags")
+    return None
+
+
 def rule_policy_table(ctx: Ctx) -> None:
     fi = _method(ctx.repo, "TunnelExitSocket", "is_allowed", ES)
     data = fi.params()[1]
@@ -3251,8 +3551,11 @@ def rule_policy_table(ctx: Ctx) -> None:
                 if p is not None and p.key not in [k for ks in atoms.values() for k in ks]:
                     raise p
     rows: list = []
+    stale = _stale_verdict(ctx, fi, data)
+    ctx.check(stale is None, "policy-table", fi, fi.node, "is_allowed classifies the packet it was given (no verdict of an earlier packet reused)",
+              stale or "")
     try:
-        while True:
+        while stale is None:
             derived = None
             if parts:
                 derived = {"own": lambda env: all(env[a] for a in [*parts, "own.rest"] if a in env)}
@@ -4750,6 +5053,12 @@ WITNESSES = [
                             "           and not (is_ipv8 and PEER_FLAG_EXIT_IPV8 in self.overlay.settings.peer_flags) \\\n",
          "new": "        flags = self.overlay.settings.peer_flags if self.exit_flags is None else self.exit_flags\n"
                 "        if not (is_bt and PEER_FLAG_EXIT_BT in flags) \\\n           and not (is_ipv8 and PEER_FLAG_EXIT_IPV8 in flags) \\\n"}]},
+    {"name": "classifier verdict of the previous packet reused when header and length agree (seeded C06-m17)", "rule": "policy-table", "edits": [
+        {"file": ES, "old": "        self.enabled = False\n", "new": "        self.enabled = False\n        self.last_shape = None\n        self.last_kind = (False, False)\n"},
+        {"file": ES, "old": "        is_bt = DataChecker.could_be_bt(data)\n        is_ipv8 = DataChecker.could_be_ipv8(data)\n",
+         "new": "        shape = (data[:23], len(data))\n        if shape != self.last_shape:\n            self.last_shape = shape\n"
+                "            self.last_kind = (DataChecker.could_be_bt(data), DataChecker.could_be_ipv8(data))\n"
+                "        is_bt, is_ipv8 = self.last_kind\n"}]},
     {"name": "utp extension taken from the low nibble of a 16-bit header read (seeded C06-m12)", "rule": "classifier-shape", "edits": [
         {"file": ES, "old": "        byte1, byte2 = unpack_from(\"!BB\", data)\n", "new": "        header, = unpack_from(\"!H\", data)\n"},
         {"file": ES, "old": "if not (0 <= (byte1 >> 4) <= 4 and (byte1 & 15) == 1):",
